@@ -350,6 +350,33 @@ class FHInterp(Interp):
             self._raise_log[-1].append(RaiseRec(None, False, st.facts.copy(), frame.func))
             return [(st, ("raise", None, False))]
 
+    def _unroll_while(self, node, st, frame, limit=16):
+        """A ``while`` whose test is decided concretely in every round (manual counter over a literal table) is
+        executed round by round; anything else is left to the engine (loop-carried names become opaque)."""
+        live, done, exits = [st.copy()], [], []
+        for _ in range(limit + 1):
+            nxt = []
+            for s in live:
+                d = self.decide(node.test, s, frame)
+                if d is None:
+                    return None
+                if d is False:
+                    exits += self.block(node.orelse, s, frame) if node.orelse else [(s, ("fall",))]
+                    continue
+                for s3, o in self.block(node.body, s, frame):
+                    if o[0] in ("fall", "continue"):
+                        nxt.append(s3)
+                    elif o[0] == "break":
+                        exits.append((s3, ("fall",)))
+                    else:
+                        done.append((s3, o))
+            live = nxt
+            if not live:
+                return done + exits
+            if len(live) + len(done) + len(exits) > self.max_states:
+                return None
+        return None
+
     def guards_decided(self, node, st, frame):
         """Every ``if`` / loop enclosing ``node`` in the current function was *decided* on this trace (from constants,
         the scenario, the run-time-type lattice or integer facts) -- none was merely assumed by splitting the trace."""
@@ -388,6 +415,10 @@ class FHInterp(Interp):
                 if sym is not None:
                     st.env[a.asname or a.name] = SymV(sym)
             return [(st, ("fall",))]
+        if isinstance(node, ast.While):
+            r = self._unroll_while(node, st, frame)
+            if r is not None:
+                return r
         inner = getattr(Interp, "_exec_stmt", None)
         if inner is not None:
             return inner(self, node, st, frame)
@@ -872,6 +903,18 @@ class FHInterp(Interp):
             # values[mask.argmax():] -- "from the first True on"; argmax of an all-False mask is 0 (numpy), so this is
             # the whole vector when nothing is selected.  Kept as a selection with its own mask form.
             return Sel(base, Mask("from-first-" + lo.args[0].op, lo.args[0].vec))
+        # sorted values cut at a searchsorted position of an aligned sorted vector:  v[:p] / v[p:]
+        for bound, head in ((hi, True), (lo, False)):
+            other = lo if head else hi
+            if isinstance(base, Vec) and other is None and isinstance(bound, Opq) and bound.tag == "searchsorted" \
+                    and len(bound.args) == 3 and isinstance(bound.args[0], Vec):
+                keys, c, side = bound.args
+                lc = as_lin_val(c)
+                if keys.base == base.base and base.sorted and keys.sorted and not base.neg and not keys.neg and lc is not None \
+                        and isinstance(side, K) and side.v in ("left", "right"):
+                    # position = number of keys < c (left) / <= c (right); the head are exactly those elements
+                    m = Mask("le", keys.shift(-lc) if side.v == "right" else keys.shift(-lc + 1))
+                    return Sel(base, m if head else m.complement())
         return Interp.slice(self, base, lo, hi, st)
 
     def index(self, base, idx, e, st, frame):
@@ -1045,6 +1088,9 @@ class FHInterp(Interp):
                 if meth in ("sort", "fill", "resize", "put", "itemset", "partition") and isinstance(recv, NVec):
                     self.mutations.append({"node": call, "func": frame.func, "value": recv, "how": "." + meth + "()"})
                     return K(None)
+                if meth == "searchsorted" and isinstance(recv, Vec) and args and as_lin_val(args[0]) is not None:
+                    side = kwargs.get("side", args[1] if len(args) > 1 else K("left"))
+                    return Opq("searchsorted", [recv, args[0], side])
                 if meth in ("max", "min") and not args and isinstance(recv, Vec) and recv.sorted and not recv.neg:
                     return recv.elem("last" if meth == "max" else "first")
             if isinstance(recv, TV) and meth == "astype" and args:
